@@ -199,6 +199,79 @@ ASSUMPTIONS = [
 ]
 
 
+# ------------------------------------------------------------------ kept variants (thorough tier self-test)
+_KV_STATE = None
+
+
+def _selected_violations(variant, specs):
+    keys = set()
+    for s in specs:
+        obs = s.rule.run(variant)
+        if s.include is not None:
+            obs = [o for o in obs if s.include.search(o.key) or s.include.search(o.file)]
+        keys |= {o.full_key() for o in obs if not o.ok}
+    return keys
+
+
+def _run_kept(i):
+    repo, specs, tasks, base = _KV_STATE
+    kind, vid, overrides = tasks[i]
+    try:
+        variant = Repo(repo.root, overrides={**repo.overrides, **overrides})
+        new = _selected_violations(variant, specs) - base
+    except AnalysisError as e:
+        return kind, vid, False, f"analysis error: {e}"
+    except Exception as e:  # pragma: no cover
+        return kind, vid, False, f"crash: {type(e).__name__}: {e}"
+    if kind == "seeded":
+        return kind, vid, bool(new), (sorted(new)[0] if new else "not reported")
+    return kind, vid, not new, ("silent" if not new else "spurious: " + sorted(new)[0])
+
+
+def run_kept_variants(repo, prop, specs, res, base_all, jobs):
+    """Self-test on the independently produced variants kept under /verif: the seeded changes that break *this* property
+    (seeded/<prop>-k/patch.diff) must be reported by this property's rules, every behaviour-preserving refactoring
+    (benign/*/patch.diff) must not be.  The patches are applied to the current sources in memory (polarlint.patch);
+    a patch that no longer fits the tree is skipped and counted.  Outcomes are self-test facts (warnings), never verdicts."""
+    from polarlint.patch import overrides_from_patch, PatchError
+    tasks, skipped = [], []
+    for kind in ("seeded", "benign"):
+        base = os.path.join(HERE, kind)
+        if not os.path.isdir(base):
+            continue
+        for vid in sorted(os.listdir(base)):
+            pp = os.path.join(base, vid, "patch.diff")
+            if not os.path.isfile(pp) or (kind == "seeded" and not vid.startswith(prop + "-")):
+                continue
+            mp = os.path.join(base, vid, "meta.json")
+            if os.path.isfile(mp):
+                try:
+                    if json.load(open(mp)).get("retired"):
+                        continue
+                except Exception:
+                    pass
+            try:
+                tasks.append((kind, vid, overrides_from_patch(repo.root, open(pp).read(), repo.overrides)))
+            except PatchError as e:
+                skipped.append(f"{kind}/{vid}: {e}")
+    global _KV_STATE
+    _KV_STATE = (repo, specs, tasks, base_all)
+    out = []
+    if tasks:
+        import multiprocessing as mp
+        with mp.get_context("fork").Pool(min(jobs, len(tasks))) as pool:
+            out = pool.map(_run_kept, range(len(tasks)), chunksize=1)
+    kv = {"seeded_total": 0, "seeded_reported": 0, "benign_total": 0, "benign_silent": 0, "skipped_not_applicable": skipped, "details": []}
+    for kind, vid, ok, detail in out:
+        kv[f"{kind}_total"] += 1
+        if ok:
+            kv["seeded_reported" if kind == "seeded" else "benign_silent"] += 1
+        else:
+            res.selftest["failures"].append({"rule": "kept-variant", "mutant": f"{kind}/{vid}", "expect": "fire" if kind == "seeded" else "silent", "ok": False, "detail": detail})
+        kv["details"].append({"variant": f"{kind}/{vid}", "ok": ok, "detail": detail[:200]})
+    res.selftest["kept_variants"] = kv
+
+
 def main(argv=None):
     ap = argparse.ArgumentParser()
     ap.add_argument("prop", nargs="?")
@@ -268,6 +341,8 @@ def main(argv=None):
         # positive controls (quick) / full mutation sweep (thorough)
         jobs = min(16, os.cpu_count() or 1) if tier == "thorough" else min(8, os.cpu_count() or 1)
         run_mutants(repo, rules, res, base_all, only_controls=(tier == "quick"), jobs=jobs)
+        if tier == "thorough":
+            run_kept_variants(repo, prop, specs, res, base_all, jobs)
         # verdict
         known = load_known()
         listed = {(k["property"], k["key"]): k for k in known.get("known", [])}
@@ -309,8 +384,13 @@ def main(argv=None):
             print(f"INCONCLUSIVE rule={o.rule} at={o.file}:{o.line} {o.where}: {o.msg}")
     st = res.selftest
     n_inc = len([o for o in res.obs if o.inconclusive])
+    kvt = ""
+    if st.get("kept_variants"):
+        kv = st["kept_variants"]
+        kvt = (f"; kept variants: {kv['seeded_reported']}/{kv['seeded_total']} seeded reported, {kv['benign_silent']}/{kv['benign_total']} refactorings silent"
+               + (f", {len(kv['skipped_not_applicable'])} not applicable" if kv["skipped_not_applicable"] else ""))
     print(f"[{prop}/{tier}] {len(res.obs)} obligations, {n_ok} hold, {n_inc} inconclusive, {len(known_matched)} known finding(s), {len(unknown)} unlisted violation(s); "
-          f"self-test {st['fired_as_expected'] + st['silent_as_expected']}/{st['mutants']} variants as expected; {wall:.2f}s")
+          f"self-test {st['fired_as_expected'] + st['silent_as_expected']}/{st['mutants']} variants as expected{kvt}; {wall:.2f}s")
     if args.verbose:
         for o in res.obs:
             print("   ", o)
